@@ -72,7 +72,7 @@ func c12Bytes(rng *rand.Rand, class int) ([]byte, string) {
 		rng.Read(b)
 		return b, "64KiB+-"
 	case 4:
-		n := 100000 + rng.Intn(1000000)
+		n := 100000 + rng.Intn(250000)
 		b := make([]byte, n)
 		rng.Read(b[:64])
 		return b, "big"
@@ -131,7 +131,7 @@ func c12Log(rng *rand.Rand, big bool) (*raft.Log, string) {
 func runC12(c *evid.Ctx) {
 	c.Rule("codec round-trips of generated raft.Log values (varint boundaries 2^7k-1/2^7k/2^7k+1, MaxUint64; nil/empty/1B/64KiB+-64/large Data and Extensions; 8 time classes), StoreLogs->GetLog round-trips through a WAL, aliasing re-checks of returned logs after further concurrent reads (race detector on), and the custom-codec reopen matrix; non-trivial = distinct (data class, extensions class, time class) combinations round-tripped",
 		"roundtrips", "field_classes")
-	nCodec, nWal, nAlias := 20000, 150, 30
+	nCodec, nWal, nAlias := 20000, 70, 14
 	if !quick(c) {
 		nCodec, nWal, nAlias = 1000000, 5000, 600
 	}
